@@ -2,19 +2,24 @@
 #define GEN_TYPE MPT_STRUCT(iteratorFactor)
 #define GEN_TYPE_NAME iteratorFactor
 /* created with defaults, then put into an arbitrary state (base a, factor b, initial value c) */
-static MPT_INTERFACE(metatype) *h_make_factor(uint32_t n, double a, double b, double c)
-{
-	MPT_INTERFACE(metatype) *mt = _mpt_iterator_factor(0); MPT_STRUCT(iteratorFactor) *d;
-	if (!mt) return 0;
-	d = MPT_baseaddr(iteratorFactor, mt, _mt);
-	d->data.base = a; d->data.fact = b; d->data.init = c; d->data.elem = n; d->data.pos = 0; d->data.curr = c;
-	return mt;
+#define GEN_HELPERS \
+static double g_curr; static double g_next_; \
+static MPT_INTERFACE(metatype) *h_make_factor(uint32_t n, double a, double b, double c) \
+{ \
+	MPT_INTERFACE(metatype) *mt = _mpt_iterator_factor(0); MPT_STRUCT(iteratorFactor) *d; \
+	if (!mt) return 0; \
+	d = MPT_baseaddr(iteratorFactor, mt, _mt); \
+	d->data.base = a; d->data.fact = b; d->data.init = c; d->data.elem = n; d->data.pos = 0; d->data.curr = c; \
+	return mt; \
 }
 #define GEN_MAKE(n_, a_, b_, c_)  h_make_factor((n_), (a_), (b_), (c_))
 #define GEN_POS(d_)  ((d_)->data.pos)
 #define GEN_ELEM(d_) ((d_)->data.elem)
-/* the current value is part of the state: init at 0, base at 1, then multiplied by the factor */
-static double g_curr;
+/* the current value is part of the state: init at 0, base at 1, then multiplied by the factor each step */
 #define GEN_SETPOS(d_, p_) ((d_)->data.pos = (p_), (d_)->data.curr = ((p_) == 0 ? in_c : ((p_) == 1 ? in_a : g_curr)))
-#define GEN_EXPECT(d_, p_)  ((p_) == 0 ? in_c : ((p_) == 1 ? in_a : g_curr))
-#define GEN_EXPECT_NEXT(d_, p_, cur_) ((p_) == 0 ? in_a : (cur_) * in_b)
+#define GEN_EXPECT(d_)  ((d_)->data.pos == 0 ? in_c : ((d_)->data.pos == 1 ? in_a : (d_)->data.curr))
+#define GEN_EXPECT_NEXT(d_, cur_) ((d_)->data.pos == 1 ? (d_)->data.base : g_next)
+#define GEN_SAME_PARAMS(a_, b_) (bits((a_)->data.base) == bits((b_)->data.base) && bits((a_)->data.fact) == bits((b_)->data.fact) && bits((a_)->data.init) == bits((b_)->data.init) && bits((a_)->data.curr) == bits((b_)->data.curr))
+/* the product the code forms in place, from the same operands, before the call */
+static double g_next;
+#define GEN_BEFORE_ADVANCE(d_) (g_next = (d_)->data.curr * (d_)->data.fact)
